@@ -288,8 +288,10 @@ Definition lp_snapshot (n : node) : node :=
       | None => fail Fatal n
       | Some e =>
           let s := {| s_index := e_index e; s_term := e_term e; s_conf := cc; s_data := fsm_snap (n_pad n) (n_fsm n) |} in
+          (* fix: D23 - a snapshot superseded while it was being written (a received snapshot was installed in the
+             meantime) is discarded, not published; unreachable here, where Snapshot is atomic *)
+          if e_index e <=? n_lii n then n else
           let n1 := close_snapshot n s in
-          if e_index e <=? n_lii n1 then n1 else
           reset_snapshot_files (compact_log (n1 <| n_lii := e_index e |> <| n_lit := e_term e |>) (e_index e))
       end
   end.
